@@ -5,3 +5,5 @@ export VERIF_REPO="${VERIF_REPO:-/repo}"
 export GOCACHE="$VERIF_DIR/.gocache"
 export GOTMPDIR="$VERIF_DIR/build/tmp"
 mkdir -p "$VERIF_DIR/build/tmp" "$GOCACHE"
+# the harness binary a check runs from: C12 and C20 use the memory-access overlay build when it exists
+vbin() { case "$1" in C12|C20) [ -x "$VERIF_DIR/build/vcheck_mem" ] && { echo "$VERIF_DIR/build/vcheck_mem"; return; };; esac; echo "$VERIF_DIR/build/vcheck"; }
